@@ -33,6 +33,18 @@ let run_case op t =
       let show (e, p) = "ok " ^ str_of_z e ^ " " ^ str_of_z p in
       let m = match tfp_scan v with Ok r -> show r | Contract -> "contract" | UB _ -> "ub" | OutOfFuel -> "outoffuel" in
       (m, show (tfp_spec (vchars v)))
+  | "strtod" ->
+      (* strtod <n c1..cn> <off>: etl::strtod on the C string starting at buf + off of an exact-size buffer that holds a null *)
+      let buf = next_zlist t in
+      let off = next_z t in
+      let n = z_of_int (List.length buf) in
+      let a = { vbuf = buf; voff = off; vlen = z_of_big (Big.sub (big_of_z n) (big_of_z off)) } in
+      let show (e, p) = "ok " ^ str_of_z p in
+      let m = match cstr_view a with
+        | Ok v -> (match tfp_scan v with Ok r -> show r | Contract -> "contract" | UB _ -> "ub" | OutOfFuel -> "outoffuel")
+        | Contract -> "contract" | UB _ -> "ub" | OutOfFuel -> "outoffuel" in
+      let s = match cstr_view a with Ok v -> show (tfp_spec (vchars v)) | _ -> "na" in
+      (m, s)
   | "fromfloat" ->
       (* fromfloat <whole> <k> <m> <precision> <n>: val = whole + k / 2^m (exact in double), span of n characters 'x' *)
       let whole = next_big t in
